@@ -50,7 +50,7 @@ func (C11) Generate(rng *rand.Rand, tier string, runIdx uint64) simkit.Plan {
 	}
 	for len(p.Steps) < n {
 		sub := int64(rng.IntN(nsub))
-		switch simkit.Weighted(rng, []int{30, 20, 14, 22, 5, 3, 3, 2, 1}) {
+		switch simkit.Weighted(rng, []int{30, 20, 14, 22, 5, 3, 3, 2, 3}) {
 		case 0:
 			s := g.Next()
 			if s.Op == "txn" {
@@ -86,7 +86,11 @@ func (C11) Generate(rng *rand.Rand, tier string, runIdx uint64) simkit.Plan {
 				p.Steps = append(p.Steps, Step{Op: "acl.token.delete", ID: TokenUUID(id)})
 			}
 		case 8:
-			p.Steps = append(p.Steps, Step{Op: "leader.install"})
+			if simkit.Chance(rng, 50) {
+				p.Steps = append(p.Steps, Step{Op: "leader.snapshot"})
+			} else {
+				p.Steps = append(p.Steps, Step{Op: "leader.install", Flag: simkit.Chance(rng, 60)})
+			}
 		}
 	}
 	return p
@@ -134,6 +138,7 @@ type c11World struct {
 	truth  map[string]map[uint64]string // subject key -> commit index -> canonical result
 	commits []uint64
 	tokenWrites map[string]int // secret -> number of committed token writes (published or not)
+	restoredAt  uint64
 }
 
 func subjectKeys() []string {
@@ -471,6 +476,15 @@ func (C11) execute(p *Plan, r *simkit.Run) *simkit.Violation {
 				return mk("panic", "apply-does-not-panic", c.Fatal.Error())
 			}
 			if st.Op == "leader.install" {
+				// the state may have been replaced by an older one: what a direct query returns NOW is the truth for
+				// every later delivery until the next commit
+				if len(w.commits) > 0 {
+					last := w.commits[len(w.commits)-1]
+					for _, k := range subjectKeys() {
+						w.truth[k][last] = w.query(k)
+					}
+					w.restoredAt = last
+				}
 				// every FSM-topic subscription must now end with ErrSubForceClosed
 				for _, id := range sortedSubIDs(w.subs) {
 					s := w.subs[id]
